@@ -71,6 +71,8 @@ def default_component_names(spec):
             out[(r, c)] = given
         elif g.rows * g.cols == 1:
             out[(r, c)] = spec["name"]
+        elif spec["kind"] == "trough" and spec.get("generic"):
+            out[(r, c)] = None  # only distinctness per column is specified; the form is read off the implementation
         elif spec["kind"] == "trough":
             out[(r, c)] = f"{spec['name']}.column_{c + 1:02d}"
         elif g.rows > 1:
@@ -95,9 +97,17 @@ def build_labware(spec, shared=None):
         arr = shared.setdefault(spec["share"], np.array(spec["init"], dtype=float))
         cls, extra = (rt.Trough, {"column_names": spec.get("names")}) if spec["kind"] == "trough" else (rt.Labware, {"component_names": spec.get("names")})
         return cls(spec["name"], spec["rows"], spec["cols"], min_volume=spec["min"], max_volume=spec["max"], initial_volumes=arr, **extra)
+    if spec.get("generic") and spec["kind"] == "trough":
+        # the same trough declared through the generic constructor (documented, emits a UserWarning)
+        names = spec.get("names")
+        cn = {well_id(0, c): n for c, n in enumerate(names) if n is not None} if names else None
+        init = spec["init"] if isinstance(spec["init"], (int, float)) else [list(spec["init"])]
+        return rt.Labware(spec["name"], 1, spec["cols"], min_volume=spec["min"], max_volume=spec["max"], initial_volumes=init, virtual_rows=spec["rows"], component_names=cn)
     if spec.get("np") and shared is not None:
-        # the caller keeps its own float64 array; the labware must neither alias nor modify it
-        arr = shared.setdefault("caller:" + spec["name"], np.array(spec["init"], dtype=float))
+        # the caller keeps its own array (float64, or the dtype named by the spec); the labware must neither
+        # alias nor modify it, and must track volumes in double precision whatever it was given
+        dt = float if spec["np"] is True else spec["np"]
+        arr = shared.setdefault("caller:" + spec["name"], np.array(spec["init"], dtype=dt))
         cls, extra = (rt.Trough, {"column_names": spec.get("names")}) if spec["kind"] == "trough" else (rt.Labware, {"component_names": spec.get("names")})
         return cls(spec["name"], spec["rows"], spec["cols"], min_volume=spec["min"], max_volume=spec["max"], initial_volumes=arr, **extra)
     if spec["kind"] == "trough":
